@@ -93,6 +93,13 @@ def run (kv : List (String × String)) : Res := Id.run do
   if !c.script.isEmpty then tags := "script.fault" :: tags
   if c.script.any (fun (_, r) => match r with | .short _ => true | _ => false) then tags := "script.short" :: tags
   if c.start == c.c0.length then tags := "start.atEnd" :: tags
+  -- the destination may sit far into a sparse file (the harness reports offsets relative to that base and
+  -- flags anything addressed below it)
+  match get kv "base" with
+  | some b =>
+    if b.endsWith ".BELOW" then return .propfail "the destination was addressed below the position it had when the dump began" tags
+    if b != "0" then tags := "start.beyond4G" :: tags
+  | none => pure ()
   if c.start == 0 then tags := "start.zero" :: tags
   if c.ops.any (fun o => match o with | .patch .. => true | _ => false) then tags := "op.patch" :: tags
   if mres != c.result then return .mismatch s!"result model={mres} impl={c.result}" tags
